@@ -226,7 +226,7 @@ def entitled(sig, a, T, succ, fully, disc_of, newly_of, r, c):
 class GetObservation(GetObservationModel):
     qualname = "nasim.envs.state.State.get_observation"
     verify = True
-    tags = {"": ("C08", "C09", "C12", "C13", "C19")}
+    tags = {"": ("C08", "C09", "C12", "C13", "C19"), "C10": ("C10",)}
 
     def variants(self):
         return list(V.KINDS)
@@ -313,6 +313,7 @@ class GetObservation(GetObservationModel):
                                             ival(obs.fields["aux_row"]) == N, ival(oc.shape[0]) == N + 1,
                                             ival(oc.shape[1]) == L.W) if isinstance(shp, tuple) else z3.BoolVal(False)))
         out.append(("C08.fresh-observation", z3.BoolVal(oc.fresh and oc is not S.old["cell"])))
+        out.append(("C10.observation-is-float32", z3.BoolVal(oc.dtype == "float32")))
         return out
 
     def frame(self, I, S):
@@ -362,7 +363,7 @@ class GetObservationScanLoop(LoopContract):
 class GetInitialObservation(GetObservationModel):
     qualname = "nasim.envs.state.State.get_initial_observation"
     verify = True
-    tags = {"": ("C08", "C09", "C13", "C19", "C04")}
+    tags = {"": ("C08", "C09", "C13", "C19", "C04"), "C10": ("C10",)}
 
     def setup(self, I, variant):
         sig, T, st, net, a = dyn_setup(I, None)
@@ -400,6 +401,7 @@ class GetInitialObservation(GetObservationModel):
         c2 = sig.qvar("ia")
         out.append(("C08.initial-aux-row-zero", z3.ForAll([c2], z3.Implies(z3.And(0 <= c2, c2 < L.W),
                                                                            z3.Select(z3.Select(O, N), c2) == 0))))
+        out.append(("C10.observation-is-float32", z3.BoolVal(obs.fields["tensor"].cell.dtype == "float32")))
         return out
 
     def frame(self, I, S):
